@@ -14,6 +14,8 @@ D. atomicity: scripts with a busy loop between two writes vs single-command
    readers."""
 import hashlib
 import os
+import re
+import signal
 import threading
 import time
 
@@ -468,12 +470,128 @@ def _w(arg, binary, budget_s):
     return worker(arg[0], binary, budget_s, arg[1])
 
 
+HOSTILE_LUA = [
+    ("deep-recursion", "local function f(n) return f(n + 1) + 1 end return f(1)"),
+    ("deep-pcall-recursion", "local function f(n) local ok = pcall(f, n + 1) return n end return f(1)"),
+    ("string-rep-20mb", "return #string.rep('x', 20000000)"),
+    ("string-rep-negative", "return string.rep('x', -1)"),
+    ("string-format-many", "return string.format(string.rep('%s', 200), unpack({}))"),
+    ("string-format-width", "return string.format('%99999d', 1)"),
+    ("string-format-star", "return string.format('%5$s', 1)"),
+    ("pattern-backtrack", "return string.find(string.rep('a', 30) .. 'b', string.rep('a*', 30) .. 'c')"),
+    ("pattern-unbalanced", "return string.find('x', '[')"),
+    ("gsub-huge", "return #string.gsub(string.rep('a', 100000), 'a', 'bbbbbbbbbb')"),
+    ("table-concat-huge", "local t = {} for i = 1, 200000 do t[i] = 'xxxxxxxx' end return #table.concat(t)"),
+    ("table-insert-oob", "local t = {} table.insert(t, 2^40, 1) return #t"),
+    ("unpack-huge", "return unpack({}, 1, 1e7)"),
+    ("unpack-range", "return select('#', unpack({}, 1, 2^31 - 1))"),
+    ("string-metatable", "getmetatable('').__index = function() return 1 end return ('x').foo"),
+    ("string-metatable-call", "getmetatable('').__call = function() return 7 end return ('x')()"),
+    ("coroutine-wrap-dead", "local co = coroutine.wrap(function() end) co() return pcall(co)"),
+    ("coroutine-yield-across-call", "local co = coroutine.create(function() redis.call('SET', 'vg:k', coroutine.yield()) end) coroutine.resume(co) return coroutine.status(co)"),
+    ("setfenv-call", "setfenv(redis.call, {}) return redis.call('PING')"),
+    ("tostring-nil-concat", "return 'a' .. nil"),
+    ("call-nonstring-args", "return redis.call('SET', {}, function() end)"),
+    ("call-nested-tables", "return redis.call('SET', 'vg:k', {{{{}}}})"),
+    ("call-many-args", "local t = {'RPUSH', 'vg:l'} for i = 1, 50000 do t[#t + 1] = i end return redis.call(unpack(t))"),
+    ("return-deep-table", "local t = {} local c = t for i = 1, 5000 do c[1] = {} c = c[1] end return t"),
+    ("return-cyclic-table", "local t = {} t[1] = t return t"),
+    ("return-huge-array", "local t = {} for i = 1, 300000 do t[i] = i end return t"),
+    ("number-edges", "return {2^63, -2^63, 0/0, 1/0, -1/0, 1e308 * 10}"),
+    ("tonumber-bases", "return {tonumber('zz', 36), tonumber('1', 99), tonumber('0x', 16)}"),
+    ("keys-mutated", "KEYS[1] = nil ARGV = nil return 1"),
+    ("redis-table-mutated", "redis.call = nil return 1"),
+    ("after-redis-mutation", "return redis.call('PING')"),
+    ("error-with-table", "error({code = 1})"),
+    ("error-with-nil", "error(nil)"),
+    ("error-in-gsub-callback", "return string.gsub('abc', '.', function() error('boom') end)"),
+    ("sort-bad-comparator", "local t = {} for i = 1, 200 do t[i] = i end table.sort(t, function(a, b) return true end) return #t"),
+    ("collectgarbage", "collectgarbage('collect') return collectgarbage('count') > 0 and 1 or 0"),
+    ("loadstring-text", "return loadstring('return 1 + 1')()"),
+    ("loadstring-binary-header", "return loadstring('\\27Lua\\81\\0\\1\\4\\8\\4\\8\\0garbage')"),
+    ("newproxy", "return type(newproxy) == 'nil' and 1 or type(newproxy(true))"),
+    ("string-byte-range", "return {string.byte('abc', -2^31, 2^31)}"),
+    ("string-sub-edges", "return string.sub('abc', -2^53, 2^53)"),
+]
+
+
+def valgrind_stage(binary, seed):
+    """E5(d): the conversion layer and the vendored C Lua under valgrind memcheck —
+    the one place neither Miri nor the Rust sanitizers see. The reply oracles of
+    parts B and C run too, but only memcheck error blocks are judged here (a
+    25x slower server may legitimately time the probes out)."""
+    import shutil
+    res = Result()
+    if shutil.which("valgrind") is None:
+        res.inconclusive.append("valgrind not installed: memcheck stage skipped")
+        return res
+    known = util.Known()
+    scratch = Result()
+    srv = server.Server(binary, start_timeout=120.0)
+    vglog = os.path.join(srv.dir, "memcheck.log")
+    srv.wrapper = ["valgrind", "--tool=memcheck", "--quiet", "--error-exitcode=0", "--num-callers=24",
+                   "--log-file=" + vglog, "--max-stackframe=8388608"]
+    srv.start()
+    ran = 0
+    try:
+        c = srv.client(timeout=120)
+        for tag, script in HOSTILE_LUA:
+            for form in ("EVAL", "EVALSHA"):
+                try:
+                    if form == "EVAL":
+                        c.cmd("EVAL", script, "1", "vg:k", "arg1", "arg2", timeout=120)
+                    else:
+                        sha = c.cmd("SCRIPT", "LOAD", script, timeout=120)
+                        if isinstance(sha, bytes):
+                            c.cmd("EVALSHA", sha, "1", "vg:k", "a", timeout=120)
+                    ran += 1
+                    res.cell("memcheck", tag, form)
+                except (Closed, Timeout, OSError):
+                    if not srv.alive():
+                        res.violation("crash/memcheck/%s" % tag, "server under valgrind exited %s on hostile script %s\n%s" % (
+                            srv.exit_status(), tag, srv.stderr_tail(1500)))
+                        srv.start()
+                    c = srv.client(timeout=120)
+        try:
+            semantics_table(srv, scratch, known, util.rng_for(seed, "vg"))
+            sandbox(srv, scratch, known)
+        except (Closed, Timeout, OSError, RuntimeError, AssertionError) as e:
+            res.notes.append("reply oracles under valgrind stopped early: %r" % (e,))
+        ran += scratch.evaluations
+    finally:
+        srv.kill(signal.SIGTERM)
+        time.sleep(0.5)
+        try:
+            text = open(vglog, "r", errors="replace").read()
+        except OSError:
+            text = ""
+        srv.cleanup()
+    res.evaluations += ran
+    res.count("memcheck_scripts_run", ran)
+    blocks = re.findall(r"^==\d+== (Invalid (?:read|write|free)[^\n]*|Conditional jump or move depends on uninitialised[^\n]*|"
+                        r"Use of uninitialised value[^\n]*|Mismatched free[^\n]*|Jump to the invalid address[^\n]*|"
+                        r"Source and destination overlap[^\n]*|Syscall param [^\n]* uninitialised[^\n]*|Process terminating with[^\n]*)", text, re.M)
+    res.count("memcheck_error_blocks", len(blocks))
+    for b in blocks[:20]:
+        i = text.find(b)
+        ctx = text[i:i + 1800]
+        fm = re.search(r"(?:at|by) 0x[0-9A-F]+: (\S+) \((?:in )?[^)]*\)", ctx)
+        res.violation("sanitizer/memcheck/%s/%s" % (re.sub(r"[0-9]+", "N", b.split(" of size")[0])[:50].replace(" ", "-"),
+                                                    fm.group(1)[:80] if fm else "?"),
+                      "valgrind memcheck report while running the hostile script corpus:\n" + ctx)
+    if ran < 20:
+        res.inconclusive.append("memcheck stage ran only %d scripts" % ran)
+    return res
+
+
 def run(tier):
     t0 = time.time()
     seed = util.seed_from_env()
     binary, bt = server.build("dev")
     n = util.jobs()
     res = util.run_workers(_w, [(seed * 1000 + i, i) for i in range(n)], dict(binary=binary, budget_s=20 if tier == "quick" else 240), nproc=n)
+    if tier == "thorough":
+        res.merge(valgrind_stage(binary, seed))
     return util.finish("C12", tier, seed, "exploration", res,
                        "A: twin servers in lock-step, every generated data-type command (strings, keys, lists, sets, hashes, sorted "
                        "sets, streams, same boundary generators as C01/C03/C04/C15, deterministic forms) sent directly to one and through "
@@ -483,7 +601,10 @@ def run(tier):
                        "ARGV byte-for-byte for all 256 byte values / empty / 64 KB / invalid UTF-8, SET through KEYS+ARGV read back "
                        "directly, EVALSHA = EVAL and sha1 in 4 DBs); C: 34 sandbox probes (io, os, require, package, dofile, loadfile, "
                        "load, debug, bytecode, blocking / connection / admin commands) must fail, canary file and directory untouched, "
-                       "child alive; D: 15 s of busy-loop scripts (3 writers) vs single-MGET readers: a=b and x+y=0 always; "
+                       "child alive; D: 15 s of busy-loop scripts (3 writers) vs single-MGET readers: a=b and x+y=0 always; thorough: "
+                       "%d hostile scripts (EVAL and EVALSHA) plus parts B and C against the server under valgrind memcheck, error "
+                       "blocks counted from its log; " % len(HOSTILE_LUA) +
+                       
                        "cell = (part, path, command / probe, reply shape)", t0,
                        assumptions=["the standard conversion is the one of the Redis EVAL documentation", "random-outcome and unordered-reply commands are excluded from the twin differential"],
                        min_cells=40)
